@@ -101,6 +101,7 @@ def r3(run):
         run.ob("%s|is-parse_ttl" % b.def_, b.def_ == "xs::store::ttl::parse_ttl", st["sp"], "TTL::Head is built in parse_ttl (test-pinned): %s" % b.def_)
         n = strip(b.operand_expr(st["rv"]["ops"][0]))
         edges = []
+        too_strict = []
         for bb, si in b.switches():
             if si["kind"] != "bool":
                 continue
@@ -119,10 +120,17 @@ def r3(run):
                 known = (rr == "ge" and k >= 1) or (rr == "gt" and k >= 0) or (rr == "ne" and k == 0) or (rr == "eq" and k >= 1)
                 if known:
                     edges += q.edge_triples(b, bb, lambda m, t=truth: m is t)
+                    # ... and the other edge must reject nothing but zero (head:1 is a value the writer emits)
+                    ro = q.rel_on_edge(rel, not truth)
+                    only_zero = (ro == "lt" and k <= 1) or (ro == "le" and k <= 0) or (ro == "eq" and k == 0)
+                    if not only_zero:
+                        too_strict.append("%s %s" % (ro, k))
         raw_n = b.operand_expr(st["rv"]["ops"][0])
         narrowing = [y for y in walk(raw_n) if y[0] == "cast" and len(y) > 2 and y[2] == "IntToInt"]
         run.ob("%s|head-n-uncast" % b.def_, not narrowing, st["sp"], "the N stored in TTL::Head is the value that was range-checked, not a narrowed copy of it (%d integer cast(s))" % len(narrowing),
                reason="head-zero-constructible")
+        run.ob("%s|head-n-accepts-one" % b.def_, bool(edges) and not too_strict, st["sp"],
+               "the range check rejects only n = 0: head:1 (and every N >= 1 the writer can emit) parses back (rejecting edge: %s)" % (too_strict or "n < 1"), reason="valid-head-rejected")
         run.ob("%s|head-n>=1" % b.def_, bool(edges) and q.dominated(b, bi, via_edges=edges), st["sp"],
                "TTL::Head(n) is constructed only on an edge where n >= 1 is known (head:0 unconstructible)", reason="head-zero-constructible")
     # both deserialisers go through that function
@@ -164,11 +172,75 @@ def r5(run):
     run.floor("synthetic frame construction sites under Store::read", n, 2)
 
 
+GC_WORKER = "xs::store::spawn_gc_worker"
+UNBOUNDED_CHANNEL = "tokio::sync::mpsc::unbounded::unbounded_channel"
+BLOCKING_RECV = "tokio::sync::mpsc::unbounded::UnboundedReceiver::<T>::blocking_recv"
+
+
+def r7(run):
+    """Removal requests have a consumer: Store::new hands the receiving half of the queue whose sender lives in Store.gc_tx to the
+    GC worker, and the worker serves each kind of request (Remove -> Store::remove(id), Drain -> signal) and keeps looping."""
+    nb = C.body_or_fail(run, C.NEW)
+    chans = [c for c in q.live_calls(nb, UNBOUNDED_CHANNEL) if "GCTask" in c.fnx]
+    run.exact("GC queue creation sites in Store::new", len(chans), 1, nb.sp)
+    spawns = q.live_calls(nb, GC_WORKER)
+    run.exact("GC worker launches in Store::new", len(spawns), 1, nb.sp)
+    if chans and spawns:
+        ch, sp = chans[0], spawns[0]
+        from_ch = any(o[0] == "call" and q.same_call(o[1], ch) for o in q.origins(sp.arg(0))) or any(y[0] == "call" and q.same_call(y[1], ch) for y in walk(sp.arg(0)))
+        run.ob("%s|gc-worker|receiver" % C.NEW, from_ch, sp.sp, "the GC worker is given the receiving half of the queue created in Store::new: %s" % fmt(strip(sp.arg(0)))[:100],
+               reason="gc-requests-unserved")
+        rets = nb.return_blocks()
+        run.ob("%s|gc-worker|always-launched" % C.NEW, bool(rets) and all(q.dominated(nb, r, via_blocks=[sp.bb]) for r in rets), sp.sp,
+               "every path through Store::new launches the GC worker", reason="gc-requests-unserved")
+        # the sender half is the one stored in the Store
+        stored = False
+        for bi, si, st in nb.stmt_points():
+            if st["k"] == "assign" and st["rv"].get("agg") == "adt" and st["rv"].get("adt") == "xs::store::Store" and bi in nb.live_blocks():
+                e = nb.rvalue_expr(st["rv"])
+                names = st["rv"].get("fields") or []
+                for i, op in enumerate(e[2]):
+                    if any(y[0] == "call" and q.same_call(y[1], ch) for y in walk(op)) or any(o[0] == "call" and q.same_call(o[1], ch) for o in q.origins(op)):
+                        stored = True
+        run.ob("%s|gc-worker|sender-stored" % C.NEW, stored, ch.sp, "the sending half of that queue is stored in the Store (gc_tx)", reason="gc-requests-unserved")
+    worker = None
+    for b in run.facts.bodies_under(GC_WORKER):
+        if q.live_calls(b, BLOCKING_RECV):
+            worker = b
+    if worker is None:
+        run.missing("%s|loop" % GC_WORKER, "GC worker loop (blocking_recv) not found")
+        return
+    run.touch(worker)
+    recv = q.live_calls(worker, BLOCKING_RECV)[0]
+    arms = {}
+    for bb, si in worker.switches():
+        if si["kind"] == "variant" and si.get("adt") == "xs::store::GCTask":
+            for (t, lab, m) in si["edges"]:
+                if isinstance(m, str):
+                    arms[m] = (bb, t, lab)
+    run.ob("%s|arms" % GC_WORKER, set(arms) >= {"Remove", "CheckHeadTTL", "Drain"}, worker.sp, "the worker dispatches on every GCTask kind: %s" % sorted(arms), reason="gc-requests-unserved")
+    for name, edge in sorted(arms.items()):
+        reach = worker.reachable_blocks([edge[1]], removed_blocks=[recv.bb])
+        if name == "Remove":
+            rm = [c for c in q.live_calls(worker, C.REMOVE) if c.bb in reach and any(y[0] == "downcast" and y[2] == "Remove" for y in walk(c.arg(1)))]
+            run.ob("%s|Remove|removes-that-id" % GC_WORKER, len(rm) >= 1 and all(q.dominated(worker, c.bb, via_edges=[edge]) for c in rm), worker.blocks[edge[0]]["term"]["sp"],
+                   "a Remove request leads to Store::remove of the id it carries", reason="gc-requests-unserved")
+        elif name == "Drain":
+            sg = [c for c in q.live_calls(worker, C.ONESHOT_SEND) if c.bb in reach]
+            run.ob("%s|Drain|signals" % GC_WORKER, len(sg) >= 1, worker.blocks[edge[0]]["term"]["sp"], "a Drain request is answered on its oneshot channel", reason="gc-requests-unserved")
+        elif name == "CheckHeadTTL":
+            rm = [c for c in q.live_calls(worker, C.REMOVE) if c.bb in reach]
+            run.ob("%s|CheckHeadTTL|evicts" % GC_WORKER, len(rm) >= 1, worker.blocks[edge[0]]["term"]["sp"], "a CheckHeadTTL request reaches Store::remove (eviction)", reason="gc-requests-unserved")
+        run.ob("%s|%s|loops" % (GC_WORKER, name), q.reaches(worker, edge[1], recv.bb) or edge[1] == recv.bb, worker.blocks[edge[0]]["term"]["sp"],
+               "after serving a %s request the worker waits for the next one" % name, reason="gc-worker-stops")
+
+
 RULES = [
     ("R-C09-1", "ephemeral frames never reach the primary-partition insert on any call chain; append still broadcasts them", r1),
     ("R-C09-2", "both read paths drop expired time:N frames before they escape (shared with R-C01-2/3/4)", lambda run: (c01.r2(run), c01.r3(run), c01.r4(run))),
     ("R-C09-6", "time:N expiry is judged against the clock at decision time in both read paths (shared with R-C08-5)", lambda run: __import__("rules.store_shared", fromlist=["x"]).rule_clock_freshness(run)),
     ("R-C09-3", "TTL::Head(n) is constructed at one site dominated by n >= 1; every TTL reader goes through it", r3),
     ("R-C09-4", "newest-N eviction: Skip<Rev<prefix>> with skip = keep (shared with R-C08-3)", c08.r3),
+    ("R-C09-7", "GC requests have a consumer: Store::new launches the worker on the queue behind Store.gc_tx; Remove / CheckHeadTTL / Drain are each served and the worker keeps looping", r7),
     ("R-C09-5", "synthetic xs.threshold / xs.pulse frames are built Ephemeral", r5),
 ]
